@@ -111,7 +111,11 @@ fn gen_case(r: &mut Rng, root: &str) -> Case {
         }
         0 => {
             ignore_order = true;
-            format!("cd $'{}' && find . -type f -printf '%s\\t%T@\\t%p\\0'", esc(root))
+            if r.below(3) == 0 {
+                format!("find $'{}' -type f -printf '%s\\t%T@\\t%P\\0'", esc(root))
+            } else {
+                format!("cd $'{}' && find . -type f -printf '%s\\t%T@\\t%p\\0'", esc(root))
+            }
         }
         1 => {
             for _ in 0..r.urange(1, 3) {
@@ -125,7 +129,19 @@ fn gen_case(r: &mut Rng, root: &str) -> Case {
                 stdin.extend_from_slice(format!("{root}/{}", pick_path(r)).as_bytes());
                 stdin.push(0);
             }
-            "xargs -0 rm -f --".to_string()
+            match r.below(3) {
+                0 => "xargs -0 rm -f --".to_string(),
+                _ => {
+                    // the staged, byte-counted delete list (sometimes with a wrong count, sometimes cut)
+                    let t = format!("{}/.copia-delete-list.copia-tmp", esc(root));
+                    let n = if r.below(4) == 0 { stdin.len() + 1 } else { stdin.len() };
+                    if r.below(4) == 0 && stdin.len() > 2 {
+                        let cut = 1 + r.usize_below(stdin.len() - 1);
+                        stdin.truncate(cut);
+                    }
+                    format!("cat > $'{t}' && test \"$(wc -c < $'{t}')\" -eq {n} && xargs -0 rm -f -- < $'{t}'; rm -f -- $'{t}'")
+                }
+            }
         }
         3 => {
             for _ in 0..r.urange(1, 3) {
